@@ -281,7 +281,8 @@ def _run_add_fixed(wrong, address_width=32):
         ctx.check("post.io-check=>uncached-region-lies-inside-an-IO-region", z3.Implies(z3.And(ioc, z3.Not(ca)), is_io))
         ctx.check("post.io-check=>region-inside-an-IO-region-is-uncached", z3.Implies(z3.And(ioc, is_io), z3.Not(ca)))
         # candidate finding: nothing confines a FIXED-origin region to the address space of the bus
-        ctx.check("finding.fixed-origin-region-lies-inside-the-address-space", toint(r.origin) + toint(r.size) <= 2**address_width)
+        # (the property demands address-space containment for AUTOMATICALLY allocated regions only: the clause is not stated, the observation is in DESIGN.md;
+        #  native demonstration kept as tools/replay_add_region_outside_address_space.py)
         if wrong: ctx.check("wrong.accepted=>cached", ca)
     paths, obl = _explore(run, max_paths=4000)
     return paths, obl, stats
@@ -907,8 +908,9 @@ def _run_sig_constraints(wrong, shape="pins"):
         (_, (TL, SRC, SUB, IDX)) = inv_at(r, M.len0, M.len0)
         ctx.check("post.every-constraint-belongs-to-a-MATCHED-resource(nothing-for-available/unknown-ones)", z3.ForAll([j], z3.Implies(z3.And(0 <= j, j < TL), z3.And(0 <= SRC(j), SRC(j) < M.len0))))
         ctx.check("post.each-(matched-resource,sub-signal)-appears-at-most-once,in-request-order", z3.ForAll([j, j2], z3.Implies(z3.And(0 <= j, j < j2, j2 < TL), _lexlt(SRC(j), SUB(j), SRC(j2), SUB(j2)))))
-        ctx.check("post.every-matched-resource-has-its-constraint(for-each-sub-signal-the-object-still-has)", z3.And(*[z3.ForAll([a], z3.Implies(z3.And(0 <= a, a < M.len0, present(a, s_)),
-                    z3.Exists([j], z3.And(0 <= j, j < TL, SRC(j) == a, SUB(j) == s_)))) for s_ in range(nsub)]))
+        # IDX (ghost of the loop invariant) = position of the constraint of (entry, sub-signal) in the list: Skolem form of `there is a position j with ...`
+        ctx.check("post.every-matched-resource-has-its-constraint(for-each-sub-signal-the-object-still-has),at-position-IDX", z3.And(*[z3.ForAll([a], z3.Implies(z3.And(0 <= a, a < M.len0, present(a, s_)),
+                    z3.And(0 <= IDX(a, z3.IntVal(s_)), IDX(a, z3.IntVal(s_)) < TL, SRC(IDX(a, z3.IntVal(s_))) == a, SUB(IDX(a, z3.IntVal(s_))) == s_))) for s_ in range(nsub)]))
         if not subs: ctx.check("post.exactly-one-constraint-per-matched-resource", z3.And(TL == M.len0, z3.ForAll([j], z3.Implies(z3.And(0 <= j, j < TL), SRC(j) == j))))
         # identifiers (name, number, sub-signal) are pairwise different when the description has no two resources with the same (name, number)  [sub-signal names of the shape are pairwise different]
         uniq_desc = z3.ForAll([a, b_], z3.Implies(z3.And(0 <= a, a < b_, b_ < M.len0), z3.Not(z3.And(AP.RES_NAME(M.res(a)) == AP.RES_NAME(M.res(b_)), AP.RES_NUM(M.res(a)) == AP.RES_NUM(M.res(b_))))))
@@ -1101,13 +1103,16 @@ def _run_request_loop(wrong, which="request_all", shape="pins"):
         ctx.check("post.invariant(no-resource-twice-or-in-both-lists)", AP._cm_inv(A.at, A.len, Mres, Mlen))
         ctx.check("post.matched==matched0++granted;granted[i]-matches-" + ("(name,i)" if numbered else "name"), z3.And(Mlen == M0len + jl, z3.ForAll([a], z3.Implies(z3.And(0 <= a, a < M0len), Mres(a) == M0res(a))),
                                                                    z3.ForAll([a], z3.Implies(z3.And(0 <= a, a < jl), match(Mres(M0len + a), a)))))
-        ctx.check("post.every-granted-resource-was-available-before,is-not-available-any-more,was-not-matched-before", z3.ForAll([a], z3.Implies(z3.And(0 <= a, a < jl),
-                    z3.And(z3.Exists([b_], z3.And(0 <= b_, b_ < A0len, A0at(b_) == Mres(M0len + a))),
-                           z3.ForAll([b_], z3.Implies(z3.And(0 <= b_, b_ < A.len), A.at(b_) != Mres(M0len + a))),
-                           z3.ForAll([b_], z3.Implies(z3.And(0 <= b_, b_ < M0len), M0res(b_) != Mres(M0len + a)))))))
+        # the position functions W (granted resource -> its position in the ORIGINAL available list) and emb (position afterwards -> original position) are ghosts
+        # of the loop invariant; stating the clauses with them (Skolem form of `there is a position ...`) keeps every obligation free of quantifier alternation
+        emb = A.emb
+        ctx.check("post.every-granted-resource-was-available-before(at-position-W(i)-of-the-original-list)", z3.ForAll([a], z3.Implies(z3.And(0 <= a, a < jl), z3.And(0 <= W(a), W(a) < A0len, A0at(W(a)) == Mres(M0len + a)))))
+        ctx.check("post.no-granted-resource-is-available-any-more", z3.ForAll([a, b_], z3.Implies(z3.And(0 <= a, a < jl, 0 <= b_, b_ < A.len), A.at(b_) != Mres(M0len + a))))
+        ctx.check("post.no-granted-resource-was-matched-before", z3.ForAll([a, b_], z3.Implies(z3.And(0 <= a, a < jl, 0 <= b_, b_ < M0len), M0res(b_) != Mres(M0len + a))))
         ctx.check("post.granted-resources-pairwise-different(each-to-one-client)", z3.ForAll([a, b_], z3.Implies(z3.And(0 <= a, a < b_, b_ < jl), Mres(M0len + a) != Mres(M0len + b_))))
-        ctx.check("post.available-afterwards-is-a-subsequence-of-available-before,shorter-by-the-number-granted", z3.And(A.len == A0len - jl,
-                    z3.ForAll([a], z3.Implies(z3.And(0 <= a, a < A.len), z3.Exists([b_], z3.And(0 <= b_, b_ < A0len, A0at(b_) == A.at(a)))))))
+        ctx.check("post.available-afterwards-is-a-subsequence-of-available-before(order-kept),shorter-by-the-number-granted", z3.And(A.len == A0len - jl,
+                    z3.ForAll([a], z3.Implies(z3.And(0 <= a, a < A.len), z3.And(0 <= emb(a), emb(a) < A0len, A.at(a) == A0at(emb(a))))),
+                    z3.ForAll([a, b_], z3.Implies(z3.And(0 <= a, a < b_, b_ < A.len), emb(a) < emb(b_)))))
         ctx.check("post.stops-only-when-" + ("(name,len(r))-is-not-available" if numbered else "no-resource-of-that-name-is-available"), z3.ForAll([a], z3.Implies(z3.And(0 <= a, a < A.len), z3.Not(match(A.at(a), jl)))))
         # vacuity guard: the path condition admits the scenario `one available resource, it matches, nothing matched before`
         if wrong: ctx.check("wrong.not(one-available-resource,nothing-matched-before,one-granted)", z3.Not(z3.And(A0len == 1, M0len == 0, jl == 1, W(0) == 0, A.len == 0)))
